@@ -86,6 +86,7 @@ struct Shared {
   OpResult res[MAXTASK][MAXOPS];
   uint32_t ops_done, ops_alloc;   // executed ops / executed ops that allocated
   uint32_t races_seen;
+  uint32_t unmodelled_sync;       // race reports downgraded because both sites use atomic instructions
   uint32_t oom_unhandled_hint;    // set just before a deref that may crash? (unused)
   char log[LOGCAP];
 };
@@ -106,6 +107,7 @@ void symbols_load(const char* exe_sym_path, const char* bdir);
 const Sym* sym_lookup(uintptr_t pc_abs);            // by absolute address (PIE base applied)
 const Sym* sym_lookup_off(uintptr_t off);           // by module offset
 bool sym_is_libfunc(const std::string& name);
+bool sym_is_atomic_func(const std::string& name);   // function contains atomic RMW / fence instructions (build-time scan)
 uintptr_t exe_base();
 std::string site_of_pc(uintptr_t pc_abs);           // library function name containing pc, or "?"
 std::string data_site(uintptr_t addr);              // symbol+offset of a static-storage address
